@@ -2,6 +2,7 @@ package openapi
 
 import (
 	"errors"
+	"math"
 	"strings"
 
 	"github.com/getkin/kin-openapi/openapi3"
@@ -100,4 +101,42 @@ func getArgs(v *float64, t string) []any {
 
 func isRef(ref string) bool {
 	return ref != "" && strings.ContainsAny(ref, "#")
+}
+
+// typedValue gives the numbers found in a default (or an enum value) the type their
+// schema declares: kin-openapi decodes every JSON number as a float64, whatever the schema says.
+func typedValue(schema *openapi3.Schema, value any) any {
+	if schema == nil {
+		return value
+	}
+
+	switch v := value.(type) {
+	case float64:
+		if schema.Type.Is(openapi3.TypeInteger) && v == math.Trunc(v) {
+			return int64(v)
+		}
+	case []any:
+		if schema.Items == nil || schema.Items.Value == nil {
+			return value
+		}
+
+		items := make([]any, 0, len(v))
+		for _, item := range v {
+			items = append(items, typedValue(schema.Items.Value, item))
+		}
+
+		return items
+	case map[string]any:
+		fields := make(map[string]any, len(v))
+		for name, item := range v {
+			fields[name] = item
+			if property, found := schema.Properties[name]; found && property != nil {
+				fields[name] = typedValue(property.Value, item)
+			}
+		}
+
+		return fields
+	}
+
+	return value
 }
